@@ -391,20 +391,70 @@ theorem linker_tables_count (name : K) (l : Store L α) (subs : List (K × Store
 
 /-! ## from_dataframe -/
 
+/-- The guard of the import round trip: no variable is called like a positional parameter of `__init__` (`self`,
+    `span`; reflected from the signature).  `span` can never be a variable (the constructor raises), `self` CAN
+    (`from_dataframe_false_at_witness`). -/
+def CtorNamesOk (names : List String) : Prop := ∀ k ∈ names, Fsic.Generated.modelCtorPositional.contains k = false
+
+instance (names : List String) : Decidable (CtorNamesOk names) := by unfold CtorNamesOk; infer_instance
+
+theorem no_kwargsClash (m : Store L α) (s i incl : Bool) (h : NamesOk m.names) (hkw : CtorNamesOk m.names) :
+    kwargsClash (modelTable m s i incl).cols = false := by
+  have hcols := dataframe_columns m s i incl h
+  unfold kwargsClash
+  rw [Bool.eq_false_iff]
+  intro hany
+  rw [List.any_eq_true] at hany
+  obtain ⟨c, hc, hbad⟩ := hany
+  have hmem : c.1 ∈ modelColumns m.names incl s i := by
+    rw [← hcols]; exact List.mem_map_of_mem hc
+  unfold modelColumns at hmem
+  simp only [List.mem_append] at hmem
+  rcases hmem with (hmem | hmem) | hmem
+  · have := hkw c.1 (exportNames_sub _ _ _ hmem)
+    rw [this] at hbad; exact Bool.noConfusion hbad
+  · cases s <;> simp at hmem
+    rw [hmem] at hbad; revert hbad; decide
+  · cases i <;> simp at hmem
+    rw [hmem] at hbad; revert hbad; decide
+
+/-- The full statement ("from the data columns of ANY model") is false: a model with a variable called `self` (the
+    parser accepts `self = X`) exports a column `self`, and `cls(index, **{'self': …})` raises TypeError — the
+    guard `CtorNamesOk` of `from_dataframe_roundtrip` excludes exactly these names.
+    Known finding `from-dataframe-self-column-typeerror`. -/
+theorem from_dataframe_false_at_witness :
+    ∃ (m : Store Nat Nat), NamesOk m.names ∧
+      fromTable (fun x => x) ⟨0, 7, 8⟩ m.names (modelTable m false false true) = none :=
+  ⟨⟨[0, 1], ["status", "iterations", "self", "X"], ["self", "X"], fun k => if k = "X" then [1, 2] else [3, 4]⟩,
+   ⟨by decide, by decide, by decide⟩, by decide⟩
+
+/-- The keyword-only parameter `default_value` is really one (reflected signature), and a column with that label
+    fills the variables that have no column: here `_h` (not exported) receives the `default_value` column, `Y` and
+    `default_value` their own. -/
+example : Fsic.Generated.modelCtorKeywordOnly.contains defaultValueParam = true := by decide
+example : ((fromTable (L := Nat) (fun x : Nat => x) ⟨0, 7, 8⟩ ["Y", "default_value", "_h"]
+      (modelTable ⟨[3, 4], [], ["Y", "default_value", "_h"],
+        fun k => if k = "Y" then [1, 2] else if k = "_h" then [9, 9] else [5, 6]⟩ false false false)).map
+      (fun m' => (m'.data "Y", m'.data "default_value", m'.data "_h"))) = some ([1, 2], [5, 6], [5, 6]) := by decide
+
+
 /-- **from_dataframe_roundtrip.**  Build a model of a class with variables `NAMES` from the export of `m` (any
     flags: `status` / `iterations` columns are ignored by the constructor, so this covers "from the data columns"
     = `dataColumns`, see `dataColumns_modelTable`).  The constructor succeeds, the span is `m`'s span, the names are
     `NAMES`, and every exported variable of the class holds the cast of the original series. -/
 theorem from_dataframe_roundtrip (m : Store L α) (cast : α → α) (dflt : Defaults α) (NAMES : List String)
-    (s i incl : Bool) (h : NamesOk m.names) (hN : NAMES.Nodup) (hsub : ∀ k ∈ NAMES, k ∈ m.names) :
+    (s i incl : Bool) (h : NamesOk m.names) (hN : NAMES.Nodup) (hsub : ∀ k ∈ NAMES, k ∈ m.names)
+    (hkw : CtorNamesOk m.names) :
     ∃ m', fromTable cast dflt NAMES (modelTable m s i incl) = some m' ∧ m'.span = m.span ∧ m'.names = NAMES ∧
       (∀ k ∈ NAMES, k ∈ exportNames m.names incl → m'.data k = (m.data k).map cast) ∧
       m'.data "status" = List.replicate m.span.length dflt.status ∧
       m'.data "iterations" = List.replicate m.span.length dflt.iterations := by
   have hs : "status" ∉ NAMES := fun x => h.noStatus (hsub _ x)
   have hi : "iterations" ∉ NAMES := fun x => h.noIterations (hsub _ x)
-  have hc : NAMES.Nodup ∧ "status" ∉ NAMES ∧ "iterations" ∉ NAMES := ⟨hN, hs, hi⟩
-  simp only [fromTable, hc, if_true]
+  have hc : NAMES.Nodup ∧ "status" ∉ NAMES ∧ "iterations" ∉ NAMES ∧ kwargsClash (modelTable m s i incl).cols = false :=
+    ⟨hN, hs, hi, no_kwargsClash m s i incl h hkw⟩
+  unfold fromTable
+  rw [if_pos hc]
   refine ⟨_, rfl, rfl, rfl, ?_, ?_, ?_⟩
   · intro k hk hex
     have h1 : k ≠ "status" := fun e => hs (e ▸ hk)
@@ -421,10 +471,10 @@ theorem from_dataframe_roundtrip (m : Store L α) (cast : α → α) (dflt : Def
 /-- For a model whose cells the cast leaves alone (a float model read back as float): every value is reproduced. -/
 theorem from_dataframe_roundtrip_id (m : Store L α) (cast : α → α) (dflt : Defaults α) (NAMES : List String)
     (s i incl : Bool) (h : NamesOk m.names) (hN : NAMES.Nodup) (hsub : ∀ k ∈ NAMES, k ∈ m.names)
-    (hcast : ∀ k ∈ NAMES, ∀ x ∈ m.data k, cast x = x) :
+    (hkw : CtorNamesOk m.names) (hcast : ∀ k ∈ NAMES, ∀ x ∈ m.data k, cast x = x) :
     ∃ m', fromTable cast dflt NAMES (modelTable m s i incl) = some m' ∧ m'.span = m.span ∧
       ∀ k ∈ NAMES, k ∈ exportNames m.names incl → m'.data k = m.data k := by
-  obtain ⟨m', h1, h2, _, h4, _⟩ := from_dataframe_roundtrip m cast dflt NAMES s i incl h hN hsub
+  obtain ⟨m', h1, h2, _, h4, _⟩ := from_dataframe_roundtrip m cast dflt NAMES s i incl h hN hsub hkw
   refine ⟨m', h1, h2, ?_⟩
   intro k hk hex
   rw [h4 k hk hex]
@@ -441,17 +491,18 @@ example : (fromTable (L := Nat) (fun x : Nat => x) ⟨0, 7, 8⟩ ["Y", "C"]
     exported, also when the columns are called `_Y`, `size`, … -/
 theorem from_dataframe_reads_own_series (o : Obj L α) (cast : α → α) (dflt : Defaults α) (NAMES : List String)
     (s i incl : Bool) (h : NamesOk o.names) (hN : NAMES.Nodup) (hsub : ∀ k ∈ NAMES, k ∈ o.names)
-    (hidx : ∀ k ∈ o.names, k ∈ o.index) :
+    (hidx : ∀ k ∈ o.names, k ∈ o.index) (hkw : CtorNamesOk o.names) :
     ∃ m', fromTable cast dflt NAMES (modelTable o.toStore s i incl) = some m' ∧ m'.span = o.span ∧
       ∀ k ∈ NAMES, k ∈ exportNames o.names incl →
         dictGet m'.toObj.dict (storageKey k) = some (((dictGet o.dict (storageKey k)).getD []).map cast) := by
   have hs : "status" ∉ NAMES := fun x => h.noStatus (hsub _ x)
   have hi : "iterations" ∉ NAMES := fun x => h.noIterations (hsub _ x)
-  obtain ⟨m', h1, h2, h3, h4, _⟩ := from_dataframe_roundtrip o.toStore cast dflt NAMES s i incl h hN hsub
+  obtain ⟨m', h1, h2, h3, h4, _⟩ := from_dataframe_roundtrip o.toStore cast dflt NAMES s i incl h hN hsub hkw
   refine ⟨m', h1, h2, ?_⟩
   intro k hk hex
   have hidx' : m'.index = "status" :: "iterations" :: NAMES := by
-    have hc : NAMES.Nodup ∧ "status" ∉ NAMES ∧ "iterations" ∉ NAMES := ⟨hN, hs, hi⟩
+    have hc : NAMES.Nodup ∧ "status" ∉ NAMES ∧ "iterations" ∉ NAMES ∧
+        kwargsClash (modelTable o.toStore s i incl).cols = false := ⟨hN, hs, hi, no_kwargsClash o.toStore s i incl h hkw⟩
     unfold fromTable at h1
     rw [if_pos hc] at h1
     cases h1
